@@ -217,7 +217,8 @@ def gen_world(seed, classes=ALL_CLASSES, want_constraints=0.3, node_p=0.25, tag=
                 args["subpath_constraints_coverage_length"] = rng.choice([1, 0.6])
                 args["length_attr"] = "len"
                 graph = dict(graph)
-                graph["edge_lengths"] = [[u, v, rng.randint(1, 4)] for u, v, _ in graph["edges"] if rng.random() < 0.8]
+                # lengths: mostly 1..4, sometimes an explicit 0, some edges without the attribute (= 1)
+                graph["edge_lengths"] = [[u, v, rng.choice([0, 0, 1, 1, 2, 3, 4])] for u, v, _ in graph["edges"] if rng.random() < 0.8]
             if crossed and dag and cov != 1 and rng.random() < 0.5:
                 # the same, expressed as a length fraction: the crossing edge is short, the route part long
                 args.pop(cons_key + "_coverage", None)
@@ -232,7 +233,7 @@ def gen_world(seed, classes=ALL_CLASSES, want_constraints=0.3, node_p=0.25, tag=
                         onr.update(zip(r_[:-1], r_[1:]))
                     for e in (c[-1], c[0]):
                         if not any(all(tuple(x) in list(zip(r_[:-1], r_[1:])) for x in c if x != e) and tuple(e) in list(zip(r_[:-1], r_[1:])) for r_ in g["routes"]):
-                            lens[tuple(e)] = 1
+                            lens[tuple(e)] = rng.choice([1, 1, 0])      # short, or of length zero: then it contributes nothing
                             break
                 graph["edge_lengths"] = [[u, v, lens.get((u, v), rng.randint(1, 3))] for u, v, _ in graph["edges"]]
                 def best_frac(c):
@@ -349,6 +350,18 @@ def run(world, simcfg, seed):
                     out["raw_solution"] = model.get_solution()
                     out["solution"] = models._sol_json(out["raw_solution"])
                     out["objective"] = model.get_objective_value()
+                for _ in range(int(simcfg.get("resolve", 0))):
+                    # the caller solves the same object again (the solver may now deliver another optimum): what the
+                    # getters return afterwards is the answer of a solved model like any other
+                    if not out["solved"]:
+                        break
+                    w.probes["resolved_same_object"] += 1
+                    model.solve()
+                    out["solved"] = bool(model.is_solved())
+                    if out["solved"]:
+                        out["raw_solution"] = model.get_solution()
+                        out["solution"] = models._sol_json(out["raw_solution"])
+                        out["objective"] = model.get_objective_value()
             except SW.Discard:
                 raise
             except SystemExit:
@@ -403,6 +416,54 @@ def greedy_variant(world, rng):
         g2["edges"] = [[u, v, flow.get((u, v), 0)] for u, v, _ in g2["edges"]]
         g2["weights"] = ws
         a["weight_type"] = "float"
+    return w2
+
+
+def length_variant(world, rng):
+    """The same world with its constraints expressed as a *length* fraction: seeded edge lengths (0 .. 9, some edges
+    without the attribute = 1) and the largest fraction (two decimals, minus 0.01) that the generating routes still
+    reach for every constraint - so anything that makes the length rule stricter loses the witness, and the
+    containment oracle sees anything that makes it looser.  DAG models in edge mode with routes and constraints only."""
+    g = world["graph"]
+    a = world["args"]
+    if _base(world) not in models.DAG_CLASSES or _node_mode(world) or not g.get("routes") or not a.get("subpath_constraints"):
+        return None
+    w2 = copy.deepcopy(world)
+    g2, a2 = w2["graph"], w2["args"]
+    lens = {}
+    for u, v, _ in g2["edges"]:
+        if rng.random() < 0.85:
+            lens[(u, v)] = rng.choice([0, 0, 1, 2, 3, 5, 9])
+    # boundary case of the length rule: two adjacent edges that no generating route takes one after the other; one of
+    # them gets length 0 - it adds nothing to the constraint's length, so a route through the other one covers it all
+    E_ = [(u, v) for u, v, _ in g2["edges"]]
+    consecutive = set()
+    on_route = set()
+    for r in g["routes"]:
+        er = list(zip(r[:-1], r[1:]))
+        on_route.update(er)
+        consecutive.update(zip(er[:-1], er[1:]))
+    pairs = [(e1, e2) for e1 in E_ for e2 in E_ if e1[1] == e2[0] and (e1, e2) not in consecutive and e1 in on_route and e2 in on_route]
+    if pairs and rng.random() < 0.6:
+        e1, e2 = rng.choice(pairs)
+        zero = rng.choice([e1, e2])
+        lens[zero] = 0
+        lens[e2 if zero == e1 else e1] = rng.randint(1, 9)
+        a2["subpath_constraints"] = [[list(e1), list(e2)]] + ([c for c in a2["subpath_constraints"] if rng.random() < 0.5])
+    g2["edge_lengths"] = [[u, v, lens[(u, v)]] for u, v, _ in g2["edges"] if (u, v) in lens]
+    L = lambda e: lens.get(tuple(e), 1)
+    worst = 1.0
+    for c in a2["subpath_constraints"]:
+        tot = float(sum(L(e) for e in c))
+        if tot <= 0:
+            continue
+        best = max(sum(L(e) for e in c if tuple(e) in set(zip(r[:-1], r[1:]))) / tot for r in g["routes"])
+        worst = min(worst, best)
+    if worst <= 0.02:
+        return None
+    a2.pop("subpath_constraints_coverage", None)
+    a2["subpath_constraints_coverage_length"] = max(0.01, int(worst * 100 - 1) / 100.0) if worst < 1 or rng.random() < 0.5 else 1
+    a2["length_attr"] = "len"
     return w2
 
 
